@@ -1,10 +1,38 @@
-import PhysisModel.Base.Proto
+import PhysisModel.Driver.C06Case
 namespace Physis.Driver.C06
-open Physis Physis.Proto
+open Physis Physis.Proto Physis.Mdl Physis.Spec.Mdl Physis.Driver.C06Case
+
+/-- the input class of the recorded finding `c06.blendweights-byte4`: some mesh with vertices
+declares a (BlendWeights, Byte4) element -/
+def hasWeightsByte4 (m : AbstractModel) : Bool :=
+  (allMeshes m).any fun mesh => mesh.vertexCount != 0 &&
+    mesh.decl.any fun e => e.vertexUsage == VU.blendWeights && e.vertexType == VT.byte4
+
+def specText (m : AbstractModel) : String :=
+  match view m with
+  | some v => viewText v
+  | none => "outside"
 
 /-- one case line in, one answer line out (see `Base/Proto.lean`) -/
 def handle (line : String) : String :=
   match fields line with
+  | "parse" :: toks =>
+    match parseModel toks with
+    | none => bad
+    | some m =>
+      let file := encodeMdl m
+      let modelAns := resultText (fromExisting file)
+      let input := "parse " ++ Bytes.toHex file
+      if WF m && (view m).isSome then
+        answer input (specText m) (if hasWeightsByte4 m then ["kf:c06.blendweights-byte4"] else [])
+          (some modelAns)
+      else
+        -- outside the property's quantifier: correspondence of the model only
+        answer input modelAns ["triv", if WF m then "outside:refs" else "outside:wf"]
+  | ["raw", h] =>
+    match Bytes.ofHexFast h with
+    | some bs => answer "=" (resultText (fromExisting bs)) ["corr"]
+    | none => bad
   | _ => bad
 
 end Physis.Driver.C06
